@@ -14,6 +14,8 @@ TARGETS = ["x", "o.p", "o[k]", "o[f()]", "f().p", "o.p.q", "arr[i++]", "this.v",
            "o[k.p]", "o[typeof k]", "o[!k]", "o[~k]", "o[k - 1]", "o[(k, 1)]", "o[k?.p]", "o.p[-k]", "o[k][-i]", "o[-1]", "o[m]", "o[-m]", "o[m.p]",
            # both the object and the computed key have effects: their order is visible
            "f()[g(a)]", "o.p[f()]", "g(a)[k + 1]", "f()[m.p]", "m.p[f()]", "o.q.r[g(b)]", "f()[g(a)].p", "f().p[g(a)]", "(a, o)[f()]", "o[f()][g(a)]",
+           # the key's evaluation changes the variable the object is read from (the object is read first)
+           "x[(x = y, 'p')]", "o[(o = obj, k)]", "x[f(x = y)]", "arr[(arr = r, 0)]", "x[`${(x = y, k)}`]", "x[(x = y).p]", "x[k + (x = y, 1)].q",
            # an instrumented operation in the key of a link that is not the last one
            "o[a + b].p", "o[k + 1].p.q", "o[`${k}`].p", "o[a + b][k + 1]", "o.p[str.concat(a)].q", "this[a + b].v", "o[f.str().trim()][i]"]
 ARRS = ["[a, b]", "[]", "[a, , b]", "[...r]", "[a, ...r]", "[[x, y], z]", "[f(), g()]", "arr", "...r", "[m, a]"]
@@ -107,7 +109,15 @@ STMTS = [
     "try { lbl: { RES.push(%s); break lbl; } } catch (e) { RES.push('T:' + e.constructor.name); }",
     "try { o[%s] += %s; RES.push(1); } catch (e) { RES.push('T:' + e.constructor.name); }",
     "try { let w = 'w'; w += %s; RES.push(w); } catch (e) { RES.push('T:' + e.constructor.name); }",
+    # an optional call of a super method is a call on `this`
+    "try { class P1 { m(v) { RES.push(this instanceof P1 ? 'this' : 'nothis'); return str; } } class Q1 extends P1 { r() { return %s; } } RES.push(new Q1().r()); } catch (e) { RES.push('T:' + e.constructor.name); }",
+    # `this` is not a constant: in the constructor of a derived class it is uninitialised until super() has returned
+    "try { class A0 { constructor() { RES.push('A0'); this.v = 'v'; } toString() { return 'obj'; } } class B0 extends A0 { constructor() { let s; try { s = %s; } catch (e) { RES.push('T:' + e.constructor.name); super(); } RES.push(typeof s, String(s)); } } new B0(); } catch (e) { RES.push('T:' + e.constructor.name); }",
 ]
+SUPER_CALLS = ["super.m?.(a).trim()", "(super.m)?.(a).concat(b)", "super['m']?.(f()).trim()", "super.nope?.(a).trim()", "super.m?.(a)?.trim()", "super.m?.(a).trim() + super.m(b)",
+               "super[k]?.(a).concat(super.m?.(b))", "`${super.m?.(a).trim()}`"]
+SUPER_EXPRS = ["this + (super(), 'x')", "`${this}${super()}`", "str.concat(this, super())", "(super(), 'x') + this", "this.v + (super(), 'y')", "`${super()}${this.v}`", "str.concat(super(), this)",
+               "this + f() + (super(), 'x')", "str.replace(this, (super(), 'z'))", "(() => this + (super(), 'x'))()", "this.v.concat((super(), 'x'))", "a + this + (super(), b)"]
 
 
 def program(seed, i, strict=None):
@@ -116,6 +126,10 @@ def program(seed, i, strict=None):
     for _ in range(rng.randrange(2, 6)):
         st = rng.choice(STMTS)
         exprs = tuple(expr(rng) for _ in range(st.count("%s")))
+        if "class B0" in st:
+            exprs = (rng.choice(SUPER_EXPRS),)
+        if "class Q1" in st:
+            exprs = (rng.choice(SUPER_CALLS),)
         if "class K" in st:
             # `this` in a static initialiser is the class itself, whose string form is its source text
             exprs = tuple(e.replace("this", "o") for e in exprs)
